@@ -10,6 +10,7 @@ import Hpv.Matrix
 import Hpv.GraphModel
 import Hpv.Onto
 import Hpv.Sim
+import Hpv.Csv
 import Hpv.Resnik
 import Hpv.Sorting
 import Hpv.Ic
@@ -271,6 +272,41 @@ def simUnframe (j : Json) : Except String Json := do
     | .ok d => Json.mkObj [("ok", metaJson d)]
     | .error _ => Json.mkObj [("err", "ValueError")]
   return Json.mkObj [("header", toJson (r.1.map cpsToStr)), ("body", toJson (r.2.map cpsToStr)), ("meta", metaJ)]
+
+/-- the csv dialect model on its own: `csv.read` = `list(csv.reader(...))` over a text, `csv.write` = `writer.writerows` -/
+def csvRead (j : Json) : Except String Json := do
+  let text ← j.getObjValAs? String "text"
+  match Hpv.Csv.readAll (strToCps text) with
+  | .ok rs => return Json.mkObj [("records", toJson (rs.map (fun r => r.map cpsToStr)))]
+  | .error _ => return Json.mkObj [("err", "csv.Error")]
+
+def csvWrite (j : Json) : Except String Json := do
+  let rows ← j.getObjValAs? (List (List String)) "rows"
+  let all := (j.getObjValAs? Bool "quote_all").toOption.getD false
+  return Json.mkObj [("text", cpsToStr (Hpv.Csv.writeRows (fun _ _ => all) 0 (rows.map (fun r => r.map strToCps))))]
+
+/-- `from_csv` up to `float(...)`: header filter, metadata, then the csv reader and the DictReader layer of the model -/
+def simReadFile (j : Json) : Except String Json := do
+  let lines ← j.getObjValAs? (List String) "lines"
+  if lines.any (fun l => l.isEmpty) then throw "bad-input: a physical line is never empty"
+  let r := unframe (lines.map strToCps)
+  let metaJ : Json := match parseMeta r.1 with
+    | .ok d => Json.mkObj [("ok", metaJson d)]
+    | .error _ => Json.mkObj [("err", "ValueError")]
+  let body : Json := match Hpv.Csv.readDict r.2.flatten with
+    | .ok (h, rows) => Json.mkObj [("fieldnames", toJson (h.map cpsToStr)),
+        ("rows", toJson (rows.map (fun row => row.map (fun kv => [cpsToStr kv.1, cpsToStr kv.2]))))]
+    | .error _ => Json.mkObj [("err", "csv.Error")]
+  return Json.mkObj [("meta", metaJ), ("csv", body)]
+
+/-- `to_csv` from the rows down: title comment, metadata comment, the physical lines of the csv writer's text -/
+def simWriteFile (j : Json) : Except String Json := do
+  let title ← j.getObjValAs? String "title"
+  let metaLine ← j.getObjValAs? String "meta_line"
+  let rows ← j.getObjValAs? (List (List String)) "rows"
+  let all := (j.getObjValAs? Bool "quote_all").toOption.getD false
+  let text := Hpv.Csv.writeRows (fun _ _ => all) 0 (rows.map (fun r => r.map strToCps))
+  return Json.mkObj [("lines", toJson ((frame (strToCps title) (strToCps metaLine) (Hpv.Csv.splitLines text)).map cpsToStr))]
 end C15
 
 /-! ### C10 -/
@@ -806,6 +842,10 @@ def handle (j : Json) : Except String Json := do
   | "resnik.precalc" => resnikPrecalc j
   | "meta.codec" => metaCodec j
   | "sim.unframe" => simUnframe j
+  | "sim.read_file" => simReadFile j
+  | "sim.write_file" => simWriteFile j
+  | "csv.read" => csvRead j
+  | "csv.write" => csvWrite j
   | "c17.csr" => c17csr j
   | _ => throw s!"unknown op {op}"
 end Drv
